@@ -164,6 +164,7 @@ type Unit struct {
 	Ctx       *Ctx
 	File      string
 	Skipped   string // non-empty: function could not be brought under contract (reason)
+	Grounds   []Ground
 	Functions []string
 }
 
@@ -187,6 +188,7 @@ func (p *Program) verifyFunc(spec *FuncSpec) (u *Unit) {
 	c := newCtx(p, pk, mode, u.Name)
 	c.spec = spec
 	c.fdecl = fd
+	c.content = true
 	u.Ctx = c
 	u.File = c.pos(fd.Pos())
 	defer func() {
@@ -247,7 +249,7 @@ func (p *Program) verifyFunc(spec *FuncSpec) (u *Unit) {
 	c.entry = entry
 	env0 := &SpecEnv{c: c, st: entry, entry: entry, binds: binds, assume: true}
 	for _, r := range spec.Requires {
-		c.assume(c.specBool(r, env0))
+		c.assumeSpec("true", r, env0)
 	}
 	{
 		envE := &SpecEnv{c: c, st: entry, entry: entry, binds: binds}
